@@ -409,3 +409,387 @@ Proof.
   - apply init_inv. exact Hn.
   - intros s0 t I R. apply step_inv; auto. apply status_ready. exact R.
 Qed.
+
+(* ------------------------------------------------------------------ *)
+(* The statements used by Properties_C18.v                            *)
+
+(* thread t is in its critical section: from its successful acquire (the
+   load that saw its ticket / the successful CAS) to its unlock's store *)
+Definition in_cs (s : st) (t : nat) : Prop := held (thr s t) = true.
+
+Lemma exclusion_of_inv s t u : Inv s -> in_cs s t -> in_cs s u -> t = u.
+Proof.
+  intros I A B. apply (i_inj s I); [right; exact A|right; exact B|].
+  rewrite (i_held s I t A), (i_held s I u B). reflexivity.
+Qed.
+
+Lemma dist_wrap_add b k : 0 <= b < W -> 0 <= k < W -> dist (wrap (b + k)) b = k.
+Proof.
+  intros Hb Hk. pose proof (wrap_range (b + k)) as R.
+  assert (E : wrap (b + k) = b + k \/ wrap (b + k) = b + k - W).
+  { destruct (Z_lt_ge_dec (b + k) W).
+    - left. apply wrap_small. lia.
+    - right. unfold wrap. rewrite <- (Z_mod_plus_full (b + k) (-1) W). apply Z.mod_small. lia. }
+  destruct (dist_spec _ b R Hb) as [[A B]|[A B]]; destruct E as [E|E]; rewrite E in *; lia.
+Qed.
+
+Lemma off_iff s T k : Inv s -> 0 <= my T < W -> 0 <= k < W ->
+  (off s T = k <-> my T = wrap (ticket s + k)).
+Proof.
+  intros I Hm Hk. pose proof (i_tr s I) as Tr. unfold off. split.
+  - intros E. apply (dist_inj _ _ (ticket s)); auto using wrap_range.
+    rewrite dist_wrap_add; auto.
+  - intros ->. apply dist_wrap_add; auto.
+Qed.
+
+(* a spinning lock() acquires exactly when the ticket half shows its ticket *)
+Lemma acquire_iff s t : Inv s -> pc (thr s t) = LSpin ->
+  (in_cs (fst (step s t)) t <-> ticket s = my (thr s t)).
+Proof.
+  intros I Hpc. unfold in_cs, step. rewrite Hpc.
+  pose proof (i_pc s I t) as P. unfold pc_ok in P. rewrite Hpc in P.
+  destruct (Z.eqb_spec (ticket s) (my (thr s t))) as [E|E].
+  - unfold next_op; cbn [my held prog opi].
+    pose proof (begin_spec t (my (thr s t)) true (prog (thr s t)) (opi (thr s t))) as B.
+    destruct (begin t (my (thr s t)) true (prog (thr s t)) (opi (thr s t))) as [T' e']. cbn in B.
+    cbn [fst set_thr thr]. rewrite upd_same. tauto.
+  - cbn [fst]. split; [congruence|tauto].
+Qed.
+
+(* the outstanding tickets are exactly ticket, ticket+1, .., users-1 (mod 2^32),
+   each owned by exactly one thread; the holder owns the first one *)
+Lemma fifo_of_inv s : Inv s ->
+  0 <= qlen s < W /\
+  (forall t, outst (thr s t) ->
+     exists k, 0 <= k < qlen s /\ my (thr s t) = wrap (ticket s + k)) /\
+  (forall k, 0 <= k < qlen s ->
+     exists t, outst (thr s t) /\ my (thr s t) = wrap (ticket s + k) /\
+               forall u, outst (thr s u) -> my (thr s u) = wrap (ticket s + k) -> u = t) /\
+  (forall t, in_cs s t -> my (thr s t) = ticket s).
+Proof.
+  intros I. pose proof (dist_range (users s) (ticket s)) as Q. fold (qlen s) in Q.
+  split; [exact Q|]. split; [|split].
+  - intros t O. exists (off s (thr s t)).
+    pose proof (i_in s I t O). pose proof (dist_range (my (thr s t)) (ticket s)) as R.
+    fold (off s (thr s t)) in R. split; [lia|].
+    apply (off_iff s (thr s t) _ I); auto using (i_my s I t). lia.
+  - intros k Hk. destruct (i_surj s I k Hk) as [t [O E]]. exists t. split; [exact O|].
+    assert (M : my (thr s t) = wrap (ticket s + k)).
+    { apply (off_iff s (thr s t) k I); auto using (i_my s I t). lia. }
+    split; [exact M|]. intros u Ou Eu. apply (i_inj s I); auto. congruence.
+  - intros t H. apply (i_held s I). exact H.
+Qed.
+
+(* the call of thread t returns in this very step, with value v *)
+Definition returns_now (s : st) (t : nat) (v : Z) : Prop :=
+  exists a e, length a = 4%nat /\ snd (step s t) = a ++ retev t (opi (thr s t)) v ++ e.
+
+(* trylock is two steps of its own thread, whatever the others do *)
+Lemma trylock_straight s t :
+  (pc (thr s t) = TRead ->
+     pc (thr (fst (step s t)) t) = TCas /\ opi (thr (fst (step s t)) t) = opi (thr s t)) /\
+  (pc (thr s t) = TCas ->
+     returns_now s t (if blob s =? my (thr s t) * W + my (thr s t) then 1 else 0)).
+Proof.
+  split; intros Hpc; unfold returns_now, step; rewrite Hpc.
+  - cbn [fst set_thr thr]. rewrite upd_same. cbn. auto.
+  - destruct (blob s =? my (thr s t) * W + my (thr s t)).
+    + destruct (next_op t _) as [T' e']. cbn [snd]. eexists; eexists; split; [|reflexivity]. reflexivity.
+    + destruct (next_op t _) as [T' e']. cbn [snd]. eexists; eexists; split; [|reflexivity]. reflexivity.
+Qed.
+
+Lemma trylock_no_steal_of_inv s t :
+  Inv s -> pc (thr s t) = TCas -> blob s = my (thr s t) * W + my (thr s t) ->
+  ticket s = users s /\ (forall u, ~ in_cs s u) /\
+  (forall u, pc (thr s u) <> LSpin) /\ in_cs (fst (step s t)) t.
+Proof.
+  intros I Hpc E. destruct (tcas_free s t I E) as (A & B & Q & NO).
+  split; [congruence|]. split; [|split].
+  - intros u H. apply (NO u). right. exact H.
+  - intros u H. apply (NO u). left. exact H.
+  - unfold in_cs, step. rewrite Hpc. rewrite (proj2 (Z.eqb_eq _ _) E).
+    unfold next_op; cbn [my held prog opi].
+    pose proof (begin_spec t (my (thr s t)) true (prog (thr s t)) (opi (thr s t))) as Bs.
+    destruct (begin t (my (thr s t)) true (prog (thr s t)) (opi (thr s t))) as [T' e']. cbn in Bs.
+    cbn [fst thr]. rewrite upd_same. tauto.
+Qed.
+
+Lemma unlock_releases_of_inv s t :
+  Inv s -> (pc (thr s t) = URead \/ pc (thr s t) = UStore) ->
+  in_cs s t /\
+  (pc (thr s t) = UStore ->
+     ticket (fst (step s t)) = wrap (ticket s + 1) /\ users (fst (step s t)) = users s /\
+     (forall u, ~ in_cs (fst (step s t)) u) /\ returns_now s t 1).
+Proof.
+  intros I Hp.
+  assert (Hh : in_cs s t).
+  { pose proof (i_pc s I t) as P. unfold pc_ok in P. unfold in_cs. destruct Hp as [E|E]; rewrite E in P; exact P. }
+  split; [exact Hh|]. intros Hpc.
+  pose proof (i_held s I t Hh) as HK.
+  unfold returns_now, in_cs, step. rewrite Hpc.
+  unfold next_op; cbn [my held prog opi].
+  pose proof (begin_spec t (my (thr s t)) false (prog (thr s t)) (opi (thr s t))) as Bs.
+  destruct (begin t (my (thr s t)) false (prog (thr s t)) (opi (thr s t))) as [T' e']. cbn in Bs.
+  cbn [fst snd ticket users thr]. rewrite HK. split; [reflexivity|]. split; [reflexivity|]. split.
+  - intros u. thr_cases u t.
+    + intros H. destruct Bs as (_ & B2 & _). congruence.
+    + intros H. apply n. apply (exclusion_of_inv s u t I); auto.
+  - eexists; eexists; split; [|reflexivity]. reflexivity.
+Qed.
+
+(* ------------------------------------------------------------------ *)
+(* History: the machine instrumented with
+     tlog = threads in the order they took a ticket (lock's fetch_add on
+            users, or trylock's successful CAS, which takes and serves its
+            ticket at once),
+     alog = threads in the order they acquired the lock.                *)
+Record ist := { base : st; tlog : list nat; alog : list nat }.
+
+Definition lstep (x : ist) (t : nat) : ist :=
+  let s := base x in
+  let T := thr s t in
+  match status_of s t with
+  | SReady =>
+    let s' := fst (step s t) in
+    match pc T with
+    | LFadd => {| base := s'; tlog := tlog x ++ [t]; alog := alog x |}
+    | LSpin => if ticket s =? my T
+               then {| base := s'; tlog := tlog x; alog := alog x ++ [t] |}
+               else {| base := s'; tlog := tlog x; alog := alog x |}
+    | TCas => if blob s =? my T * W + my T
+              then {| base := s'; tlog := tlog x ++ [t]; alog := alog x ++ [t] |}
+              else {| base := s'; tlog := tlog x; alog := alog x |}
+    | _ => {| base := s'; tlog := tlog x; alog := alog x |}
+    end
+  | _ => x
+  end.
+
+(* erasing the logs gives the executable machine *)
+Lemma lstep_erase x t : base (lstep x t) = fst (grant M (base x) t).
+Proof.
+  unfold lstep, grant. cbn [mstatus mstep M].
+  destruct (status_of (base x) t); try reflexivity.
+  destruct (pc (thr (base x) t)); try reflexivity;
+  match goal with |- context [if ?b then _ else _] => destruct b end; reflexivity.
+Qed.
+
+Definition iinit start progs : ist := {| base := init start progs; tlog := []; alog := [] |}.
+
+Inductive ireach start progs : ist -> Prop :=
+| ir_init : ireach start progs (iinit start progs)
+| ir_step x t : ireach start progs x -> ireach start progs (lstep x t).
+
+Definition irun (x : ist) (sch : list nat) : ist := fold_left lstep sch x.
+Lemma ireach_irun start progs sch : forall x, ireach start progs x -> ireach start progs (irun x sch).
+Proof. induction sch as [|t r IH]; intros x R; cbn; auto. apply IH. constructor. exact R. Qed.
+
+(* w = the spinning threads in queue order; its last element holds ticket
+   users-1, so the k-th one is at offset qlen - |w| + k from the ticket half *)
+Definition LI (s : st) (w : list nat) : Prop :=
+  (forall k, (k < length w)%nat ->
+     pc (thr s (nth k w 0%nat)) = LSpin /\
+     off s (thr s (nth k w 0%nat)) = qlen s - Z.of_nat (length w) + Z.of_nat k) /\
+  (forall u, pc (thr s u) = LSpin -> In u w).
+
+Lemma li_mem s w u : LI s w -> In u w -> pc (thr s u) = LSpin.
+Proof.
+  intros [A _] H. destruct (In_nth w u 0%nat H) as [k [Hk E]]. rewrite <- E. apply A. exact Hk.
+Qed.
+
+Lemma li_local s t x w :
+  LI s w -> pc (thr s t) <> LSpin -> pc x <> LSpin -> LI (set_thr s t x) w.
+Proof.
+  intros L A B. pose proof L as [L1 L2]. split.
+  - intros k Hk. destruct (L1 k Hk) as [P O].
+    assert (nth k w 0%nat <> t) by (intros E; rewrite E in P; contradiction).
+    unfold off, qlen; cbn [set_thr thr ticket users]. rewrite upd_other by assumption. auto.
+  - intros u. cbn [set_thr thr]. thr_cases u t; [contradiction|]. apply L2.
+Qed.
+
+Lemma li_fadd s t w :
+  Inv s -> (t < nthr s)%nat -> pc (thr s t) = LFadd -> LI s w ->
+  LI {| ticket := ticket s; users := wrap (users s + 1);
+        thr := upd (thr s) t {| pc := LSpin; my := users s; held := held (thr s t);
+                                prog := prog (thr s t); opi := opi (thr s t) |};
+        nthr := nthr s |} (w ++ [t]).
+Proof.
+  intros I Ht Hpc L. pose proof L as [L1 L2].
+  assert (NO : ~ outst (thr s t)).
+  { pose proof (i_pc s I t) as P. unfold pc_ok in P. rewrite Hpc in P. intros [A|A]; congruence. }
+  pose proof (queue_room s t I Ht NO) as Room.
+  assert (Q' : dist (wrap (users s + 1)) (ticket s) = qlen s + 1)
+    by (apply dist_inc; auto using (i_ur s I), (i_tr s I)).
+  split.
+  - intros k Hk. rewrite app_length in *. cbn [length] in *.
+    unfold off, qlen; cbn [ticket users thr]. rewrite Q'.
+    destruct (Nat.eq_dec k (length w)) as [->|Nk].
+    + rewrite nth_middle. rewrite upd_same. cbn [pc my]. split; [reflexivity|].
+      fold (qlen s). lia.
+    + rewrite app_nth1 by lia. destruct (L1 k ltac:(lia)) as [P O].
+      assert (nth k w 0%nat <> t) by (intros E; rewrite E in P; congruence).
+      rewrite upd_other by assumption. split; [exact P|]. unfold off in O. lia.
+  - intros u. cbn [thr]. rewrite in_app_iff. thr_cases u t; [right; left; reflexivity|].
+    intros H. left. apply L2. exact H.
+Qed.
+
+(* the thread whose spin ends is the head of the queue *)
+Lemma li_acquire s t x w :
+  Inv s -> pc (thr s t) = LSpin -> ticket s = my (thr s t) -> LI s w -> pc x <> LSpin ->
+  exists w', w = t :: w' /\ LI (set_thr s t x) w'.
+Proof.
+  intros I Hpc E L Hx. pose proof L as [L1 L2].
+  assert (O0 : off s (thr s t) = 0).
+  { unfold off. rewrite <- E. apply dist_self. apply (i_tr s I). }
+  pose proof (L2 t Hpc) as Hin.
+  destruct w as [|h w']; [destruct Hin|].
+  destruct (L1 0%nat ltac:(cbn; lia)) as [P0 Oh]. cbn [nth] in P0, Oh.
+  pose proof (dist_range (my (thr s h)) (ticket s)) as Rh. fold (off s (thr s h)) in Rh.
+  destruct (In_nth _ _ 0%nat Hin) as [k [Hk Ek]].
+  destruct (L1 k Hk) as [Pk Ok]. rewrite Ek in Ok.
+  assert (k = 0%nat) by lia. subst k. cbn [nth] in Ek. subst h.
+  exists w'. split; [reflexivity|]. split.
+  - intros k Hk'. destruct (L1 (S k) ltac:(cbn; lia)) as [P O]. cbn [nth] in P, O.
+    assert (nth k w' 0%nat <> t).
+    { intros Z. rewrite Z in O. cbn [length] in O. lia. }
+    unfold off, qlen; cbn [set_thr thr ticket users]. rewrite upd_other by assumption.
+    split; [exact P|]. unfold off in O. cbn [length] in O. lia.
+  - intros u. cbn [set_thr thr]. thr_cases u t; [contradiction|].
+    intros H. destruct (L2 u H) as [Z|Z]; [congruence|exact Z].
+Qed.
+
+Lemma li_tcas s t x w :
+  Inv s -> blob s = my (thr s t) * W + my (thr s t) -> LI s w -> pc x <> LSpin ->
+  w = [] /\
+  LI {| ticket := my (thr s t); users := wrap (my (thr s t) + 1);
+        thr := upd (thr s) t x; nthr := nthr s |} [].
+Proof.
+  intros I E L Hx. destruct (tcas_free s t I E) as (A & B & Q & NO).
+  assert (w = []).
+  { destruct w as [|h w']; auto. exfalso. apply (NO h). left. apply (li_mem s (h :: w')); auto. left; auto. }
+  split; [assumption|]. split.
+  - intros k Hk. cbn in Hk. lia.
+  - intros u. cbn [thr]. thr_cases u t; [contradiction|].
+    intros H. exfalso. apply (NO u). left. exact H.
+Qed.
+
+Lemma li_ustore s t x w :
+  Inv s -> pc (thr s t) = UStore -> LI s w -> pc x <> LSpin ->
+  LI {| ticket := wrap (my (thr s t) + 1); users := users s;
+        thr := upd (thr s) t x; nthr := nthr s |} w.
+Proof.
+  intros I Hpc L Hx. pose proof L as [L1 L2].
+  destruct (ustore_facts s t I Hpc) as (Hh & HK & Q1 & Q' & Other).
+  rewrite HK. split.
+  - intros k Hk. destruct (L1 k Hk) as [P O].
+    assert (Hne : nth k w 0%nat <> t) by (intros Z; rewrite Z in P; congruence).
+    unfold off, qlen; cbn [ticket users thr]. rewrite upd_other by assumption.
+    split; [exact P|]. rewrite Q'.
+    destruct (Other _ Hne (or_introl P)) as [Z _]. rewrite Z. lia.
+  - intros u. cbn [thr]. thr_cases u t; [contradiction|]. apply L2.
+Qed.
+
+Record LInv (x : ist) : Prop := {
+  l_inv : Inv (base x);
+  l_fifo : exists w, tlog x = alog x ++ w /\ LI (base x) w
+}.
+
+Lemma linv_step x t : LInv x -> LInv (lstep x t).
+Proof.
+  intros [I [w [Hl L]]]. unfold lstep.
+  destruct (status_of (base x) t) eqn:St; try (constructor; eauto; fail).
+  pose proof (status_ready _ _ St) as Ht.
+  pose proof (step_inv (base x) t I Ht) as I'.
+  set (s := base x) in *. remember (thr s t) as T eqn:HT.
+  pose proof (i_pc s I t) as PT. rewrite <- HT in PT. unfold pc_ok in PT.
+  destruct (pc T) eqn:Hpc.
+  - (* LFadd *)
+    constructor; cbn [base tlog alog]; [exact I'|].
+    exists (w ++ [t]). split; [rewrite Hl, app_assoc; reflexivity|].
+    unfold step. rewrite <- HT, Hpc. cbn [fst]. subst T. apply li_fadd; auto.
+  - (* LSpin *)
+    destruct (Z.eqb_spec (ticket s) (my T)) as [E|E].
+    + constructor; cbn [base tlog alog]; [exact I'|].
+      unfold step. rewrite <- HT, Hpc. rewrite (proj2 (Z.eqb_eq _ _) E).
+      unfold next_op; cbn [my held prog opi].
+      pose proof (begin_spec t (my T) true (prog T) (opi T)) as B.
+      destruct (begin t (my T) true (prog T) (opi T)) as [T' e']. cbn in B.
+      destruct B as (_ & _ & _ & B4 & _). cbn [fst].
+      destruct (li_acquire s t T' w I) as [w' [Ew L']]; auto; try congruence.
+      exists w'. split; [|exact L']. rewrite Hl, Ew, <- app_assoc. reflexivity.
+    + constructor; cbn [base tlog alog]; [exact I'|].
+      exists w. split; [exact Hl|].
+      unfold step. rewrite <- HT, Hpc. rewrite (proj2 (Z.eqb_neq _ _) E). exact L.
+  - (* TRead *)
+    constructor; cbn [base tlog alog]; [exact I'|]. exists w. split; [exact Hl|].
+    unfold step. rewrite <- HT, Hpc. cbn [fst]. apply li_local; auto; cbn; congruence.
+  - (* TCas *)
+    destruct (Z.eqb_spec (blob s) (my T * W + my T)) as [E|E].
+    + constructor; cbn [base tlog alog]; [exact I'|].
+      unfold step. rewrite <- HT, Hpc. rewrite (proj2 (Z.eqb_eq _ _) E).
+      unfold next_op; cbn [my held prog opi].
+      pose proof (begin_spec t (my T) true (prog T) (opi T)) as B.
+      destruct (begin t (my T) true (prog T) (opi T)) as [T' e']. cbn in B.
+      destruct B as (_ & _ & _ & B4 & _). cbn [fst].
+      rewrite HT in E. destruct (li_tcas s t T' w I E L B4) as [Ew L'].
+      exists []. split; [|rewrite HT; exact L']. rewrite Hl, Ew, !app_nil_r. reflexivity.
+    + constructor; cbn [base tlog alog]; [exact I'|]. exists w. split; [exact Hl|].
+      unfold step. rewrite <- HT, Hpc. rewrite (proj2 (Z.eqb_neq _ _) E).
+      unfold next_op.
+      pose proof (begin_spec t (my T) (held T) (prog T) (opi T)) as B.
+      destruct (begin t (my T) (held T) (prog T) (opi T)) as [T' e']. cbn in B.
+      destruct B as (_ & _ & _ & B4 & _). cbn [fst].
+      apply li_local; auto. congruence.
+  - (* URead *)
+    constructor; cbn [base tlog alog]; [exact I'|]. exists w. split; [exact Hl|].
+    unfold step. rewrite <- HT, Hpc. cbn [fst]. apply li_local; auto; cbn; congruence.
+  - (* UStore *)
+    constructor; cbn [base tlog alog]; [exact I'|]. exists w. split; [exact Hl|].
+    unfold step. rewrite <- HT, Hpc.
+    unfold next_op; cbn [my held prog opi].
+    pose proof (begin_spec t (my T) false (prog T) (opi T)) as B.
+    destruct (begin t (my T) false (prog T) (opi T)) as [T' e']. cbn in B.
+    destruct B as (_ & _ & _ & B4 & _). cbn [fst].
+    subst T. apply li_ustore; auto.
+  - (* Fin *)
+    constructor; cbn [base tlog alog]; [exact I'|]. exists w. split; [exact Hl|].
+    unfold step. rewrite <- HT, Hpc. exact L.
+Qed.
+
+Theorem ireach_linv start progs x :
+  Z.of_nat (length progs) < W -> ireach start progs x -> LInv x.
+Proof.
+  intros Hn. induction 1 as [|x t R IH].
+  - constructor; cbn [base tlog alog iinit].
+    + apply init_inv. exact Hn.
+    + exists []. split; [reflexivity|]. split.
+      * intros k Hk. cbn in Hk. lia.
+      * intros u Hu. exfalso. cbn in Hu. unfold start_thread in Hu.
+        destruct (begin_spec u 0 false (nth u progs []) 0) as (_ & _ & _ & N & _). contradiction.
+  - apply linv_step; exact IH.
+Qed.
+
+(* locks are acquired in exactly the order the tickets were taken: the
+   acquisition log is a prefix of the ticket log, and what remains is the
+   list of spinning threads in the order of their (consecutive) tickets *)
+Lemma fifo_history_of_linv x : LInv x ->
+  exists w, tlog x = alog x ++ w /\
+    (forall u, In u w <-> pc (thr (base x) u) = LSpin) /\
+    (forall k, (k < length w)%nat ->
+       my (thr (base x) (nth k w 0%nat)) =
+       wrap (users (base x) - Z.of_nat (length w) + Z.of_nat k)).
+Proof.
+  intros [I [w [Hl L]]]. exists w. split; [exact Hl|]. split.
+  - intros u. split; [apply li_mem; exact L|apply (proj2 L)].
+  - intros k Hk. destruct (proj1 L k Hk) as [P O].
+    set (u := nth k w 0%nat) in *.
+    pose proof (i_in (base x) I u (or_introl P)) as Hin.
+    pose proof (dist_range (my (thr (base x) u)) (ticket (base x))) as R.
+    fold (off (base x) (thr (base x) u)) in R.
+    pose proof (dist_range (users (base x)) (ticket (base x))) as Rq. fold (qlen (base x)) in Rq.
+    pose proof (i_tr (base x) I) as Tr. pose proof (i_ur (base x) I) as Ur.
+    pose proof (i_my (base x) I u) as Mu.
+    apply (off_iff (base x) (thr (base x) u) _ I) in O; auto; [|lia].
+    rewrite O. unfold wrap, qlen, dist, wrap.
+    rewrite <- Z.add_sub_assoc, <- Z.add_assoc, Zplus_mod_idemp_l.
+    rewrite Zplus_mod_idemp_r. f_equal. lia.
+Qed.
